@@ -1,0 +1,98 @@
+//! Verification hooks (feature `verif-hooks`, off by default): names for otherwise
+//! private items and plain-data snapshots of the router state. Nothing here changes
+//! what the broker computes.
+use std::sync::atomic::{AtomicBool, AtomicU64};
+
+use serde::Serialize;
+
+pub use crate::link::local::PendingLink;
+pub use crate::link::network::{Network, N};
+pub use crate::link::remote::{mqtt_connect, RemoteLink};
+pub use crate::router::{Ack, Event, Print, ShadowRequest};
+pub use crate::segments::{CommitLog, Position, Storage};
+
+/// Written by the router thread around its blocking receive
+#[derive(Debug, Default)]
+pub struct IdleMarker {
+    /// Events handed to `Router::events` so far
+    pub events_handled: AtomicU64,
+    /// Completed turns of the router loop
+    pub turns: AtomicU64,
+    /// Router is (about to be) blocked in `recv` with nothing ready
+    pub blocked: AtomicBool,
+}
+
+#[derive(Debug, Clone, Default, Serialize)]
+pub struct Counters {
+    pub connect: u64,
+    pub device_data: u64,
+    pub ready: u64,
+    pub disconnect: u64,
+    pub publish_will: u64,
+    pub other: u64,
+    pub consumes: u64,
+}
+
+#[derive(Debug, Clone, Serialize)]
+pub struct RequestSnapshot {
+    pub filter: String,
+    pub filter_idx: usize,
+    pub qos: u8,
+    pub cursor: (u64, u64),
+    pub forward_retained: bool,
+    pub group: Option<String>,
+}
+
+#[derive(Debug, Clone, Serialize)]
+pub struct ConnectionSnapshot {
+    pub id: usize,
+    pub client_id: String,
+    pub clean: bool,
+    pub subscriptions: Vec<String>,
+    /// "Ready", "Caughtup", "InflightFull", "Busy"
+    pub status: String,
+    pub data_requests: Vec<RequestSnapshot>,
+    pub inflight: Vec<u16>,
+    pub last_pkid: u16,
+    pub unacked_pubrels: Vec<u16>,
+    pub pending_acks: usize,
+    pub recorded_qos2: usize,
+    pub outgoing_len: usize,
+    pub incoming_len: usize,
+}
+
+#[derive(Debug, Clone, Serialize)]
+pub struct LogSnapshot {
+    pub filter: String,
+    pub filter_idx: usize,
+    pub head: u64,
+    pub tail: u64,
+    pub next_offset: (u64, u64),
+    pub parked: Vec<(usize, String)>,
+}
+
+#[derive(Debug, Clone, Serialize)]
+pub struct GroupSnapshot {
+    pub name: String,
+    pub members: Vec<String>,
+    pub turn: usize,
+    pub cursor: (u64, u64),
+}
+
+#[derive(Debug, Clone, Default, Serialize)]
+pub struct RouterSnapshot {
+    pub connections: Vec<ConnectionSnapshot>,
+    pub readyqueue: Vec<usize>,
+    pub connection_map: Vec<(String, usize)>,
+    pub subscription_map: Vec<(String, Vec<usize>)>,
+    /// keys of the connections / ibufs / obufs / ackslog / trackers slabs
+    pub slab_keys: [Vec<usize>; 5],
+    pub graveyard: Vec<(String, bool)>,
+    pub groups: Vec<GroupSnapshot>,
+    pub retained: Vec<String>,
+    pub wills: Vec<String>,
+    pub logs: Vec<LogSnapshot>,
+    pub parked_notifications: usize,
+    pub total_connections: usize,
+    pub counters: Counters,
+}
